@@ -37,6 +37,9 @@ def scenario(ctx, i, trainer=None):
         N = max(N, 4 * D + 4)
     w, m, v, _ = gen.gmm_params(r, C, D, scales=np.ones(D))
     X = gen.sample_data(r, w, m, v, N)
+    if trainer == "kmeans" and r.random() < 0.3:
+        m = m.copy()
+        m[int(r.integers(0, C))] += 1e3  # an initial centroid that attracts nothing: its cluster stays empty, it keeps its place
     y = np.arange(N) % 2
     if N <= 6:
         comps = gen.compositions(N)
